@@ -121,7 +121,7 @@ func main() {
 		}
 	}
 
-	const shard = 40
+	const shard = 28
 	var terms []string
 	start := 0
 	flush := func(end int) {
